@@ -44,7 +44,10 @@ CHECK_ARGS = dict(
         "eigenpair of a positive definite real matrix; that np.linalg.eig delivers such a pair (and inv the inverse) is trusted, "
         "and the oracle checks the consequence entry by entry on every generated case",
         "s_o symmetric positive definite, database and observation finite (no NaN/inf), x2_max >= 0 or unrestricted (< 0)",
-        "estimates compared numerically only when the total weight is not tiny (sum w > 1e-290) and chi2 is well-conditioned",
+        "estimates compared numerically only when the total weight is not tiny (sum w > 1e-290) and chi2 is well-conditioned; sigma is compared "
+        "relative to the posterior SPREAD (1e-6 var + (8 n eps |x|)^2), not to |x|",
+        "any search window that is sound w.r.t. the property (every excluded entry has chi2 > x2_max, longdouble oracle) is accepted; the bounds "
+        "handed to np.searchsorted are captured from the real code and fed to the model; their deviation from the documented radius is a diagnostic only",
     ])
 
 
@@ -132,6 +135,31 @@ class Oracle:
         return float(mean), float(var), W
 
 
+def oracle_quantiles(xw, ww, taus, d):
+    """brute-force inverse of the weighted ecdf with np.interp semantics, independent of typhon.
+    Returns (lo, hi) per tau: the smallest / largest value any order of ties in x can give
+    (ties by descending / ascending weight), at tau -/+ d (d = rounding allowance of the cdf)."""
+    res = []
+    for sgn, dd in ((-1.0, -d), (1.0, d)):
+        order = np.lexsort((sgn * ww.astype(float), xw))        # by x, ties by weight (desc for lo, asc for hi)
+        xs = xw[order].astype(LD)
+        cum = np.cumsum(ww[order].astype(LD))
+        cum = cum / cum[-1]
+        vals = []
+        for t in taus:
+            t = LD(min(1.0, max(0.0, t + dd)))
+            if t < cum[0]:
+                vals.append(float(xs[0]))
+                continue
+            j = int(np.searchsorted(cum, t, side="right")) - 1          # last index with cum[j] <= t
+            if j >= len(xs) - 1 or cum[j] == t:
+                vals.append(float(xs[min(j, len(xs) - 1)]))
+            else:
+                vals.append(float((xs[j + 1] - xs[j]) / (cum[j + 1] - cum[j]) * (t - cum[j]) + xs[j]))
+        res.append(vals)
+    return res[0], res[1]
+
+
 def ecdf_groups(xs, cum):
     """cdf as a function of x: value at the last entry of each group of equal x"""
     out = {}
@@ -142,15 +170,35 @@ def ecdf_groups(xs, cum):
 
 # ---------------------------------------------------------------- generators
 def gen_spd(g, m):
-    style = g.choice(["diag", "corr", "corr", "scaled-id", "repeated"])
+    """SPD covariance.  Overall scale of the noise std over 8 decades (entries 1e-10 .. 1e+6),
+    eigenvalue spans up to 6 decades, correlation up to 0.99 (D C D with a correlation matrix C)."""
+    style = str(g.choice(["diag", "corr", "corr", "scaled-id", "repeated", "sdcorr", "sdcorr", "sdcorr"]))
+    gscale = float(g.choice([1.0, 1.0, 1.0, 1e-5, 1e-4, 1e-3, 1e-2, 1e2, 1e3]))
     span = g.choice([0, 1, 2, 3])
-    ev = 10.0 ** g.uniform(-span, span, size=m)
+    ev = gscale ** 2 * 10.0 ** g.uniform(-span, span, size=m)
     if style == "scaled-id":
         ev[:] = ev[0]
     if style == "repeated" and m > 1:
         ev[1] = ev[0] = ev.min()
     if style in ("diag", "scaled-id"):
         s = np.diag(ev)
+    elif style == "sdcorr":
+        sd = gscale * 10.0 ** g.uniform(-0.5, 0.5, size=m)
+        rho = float(g.choice([0.3, 0.6, 0.9, 0.99]))
+        kind = str(g.choice(["equi", "ar1", "random"]))
+        if kind == "equi":
+            c = (1.0 - rho) * np.eye(m) + rho * np.ones((m, m))
+        elif kind == "ar1":
+            idx = np.arange(m)
+            c = rho ** np.abs(idx[:, None] - idx[None, :])
+        else:
+            a = g.normal(size=(m, m + 2))
+            c0 = a @ a.T
+            d0 = np.sqrt(np.diag(c0))
+            c = rho * (c0 / d0[:, None] / d0[None, :]) + (1.0 - rho) * np.eye(m)
+        s = sd[:, None] * c * sd[None, :]
+        s = (s + s.T) / 2.0
+        style = f"sdcorr-{kind}"
     else:
         q, _ = np.linalg.qr(g.normal(size=(m, m)))
         s = q @ np.diag(ev) @ q.T
@@ -180,9 +228,14 @@ def gen_case(rng, tier):
         src = g.integers(0, n, size=n)
         mask = g.random(n) < 0.4
         y[mask] = y[src[mask]]
-    xstyle = str(g.choice(["normal", "normal", "const", "ints", "lin", "offset"]))
+    xstyle = str(g.choice(["normal", "normal", "const", "ints", "lin", "offset", "bigconst", "bigoffset", "bigoffset"]))
     if xstyle == "const":
         x = np.full(n, float(g.choice([0.0, 1.0, -2.5, 273.15])))
+    elif xstyle == "bigconst":          # posterior spread must be (numerically) zero
+        x = np.full(n, float(g.choice([101325.0, -5.0e6, 1.0e8])))
+    elif xstyle == "bigoffset":         # spread far below the magnitude (pressure in Pa, mK on top of K)
+        off, spr = [(101325.0, 1e-3), (1.0e8, 1e-2), (-273.15e3, 1e-4), (250.0, 1e-6)][int(g.integers(0, 4))]
+        x = off + spr * (y[:, 0] / sd[0] * 0.7 + g.normal(size=n) * 0.3)
     elif xstyle == "ints":
         x = g.integers(-2, 3, size=n).astype(float)
     elif xstyle == "lin":
@@ -241,19 +294,52 @@ class Real:
         self.order = twin.x.astype(int)            # sorted position k holds original entry order[k]
         self.n = len(x)
 
-    def query(self, y_obs, x2_max, taus):
+    def weights_captured(self, y_obs, x2_max):
+        """weights() with the arguments of its np.searchsorted calls recorded by wrapping the
+        module-level name `np` of typhon.retrieval.bmci.bmci from outside"""
+        mod = sys.modules[type(self.b).__module__]
+        log = []
+
+        class NpProxy:
+            def __getattr__(self, name):
+                return getattr(np, name)
+
+            @staticmethod
+            def searchsorted(a, v, side="left", **kw):
+                log.append((str(side), v))
+                return np.searchsorted(a, v, side=side, **kw)
+
+        saved = mod.np
+        mod.np = NpProxy()
+        try:
+            res = self.b.weights(y_obs, x2_max)
+        finally:
+            mod.np = saved
+        return res, log
+
+    def query(self, y_obs, x2_max, taus, other=None):
+        """all public entry points for one observation.  predict / predict_quantiles are called
+        with STACKED observations [other, y_obs] and the row of y_obs is taken."""
         b = self.b
         out = {}
-        il, iu, ws = b.weights(y_obs, x2_max)
+        (il, iu, ws), log = self.weights_captured(y_obs, x2_max)
         out["il"], out["iu"], out["ws"] = int(il), int(iu), np.asarray(ws, dtype=float).ravel()
-        xs, sg = b.predict(y_obs.reshape(1, -1), x2_max)
-        out["mean"], out["sigma"] = float(xs[0]), float(sg[0])
+        lefts = [v for sd_, v in log if sd_ == "left"]
+        rights = [v for sd_, v in log if sd_ == "right"]
+        out["bounds"] = (lefts[0], rights[0]) if (len(log) == 2 and len(lefts) == 1 and len(rights) == 1) else None
+        stack = y_obs.reshape(1, -1) if other is None else np.vstack([other.reshape(1, -1), y_obs.reshape(1, -1)])
+        xs, sg = b.predict(stack, x2_max)
+        if np.shape(xs) != (stack.shape[0],) or np.shape(sg) != (stack.shape[0],):
+            raise ValueError(f"predict returned shapes {np.shape(xs)}, {np.shape(sg)} for {stack.shape[0]} observations")
+        out["mean"], out["sigma"] = float(xs[-1]), float(sg[-1])
         cx, cc = b.cdf(y_obs.copy(), x2_max)
         out["cdf_x"] = np.asarray(cx, dtype=float).ravel()
         out["cdf_nan"] = isnan(cc) and np.ndim(cc) == 0
         out["cdf_c"] = None if out["cdf_nan"] else np.asarray(cc, dtype=float).ravel()
-        q = b.predict_quantiles(y_obs.reshape(1, -1), np.asarray(taus), x2_max)
-        out["q"] = np.asarray(q, dtype=float).ravel()
+        q = np.asarray(b.predict_quantiles(stack, np.asarray(taus), x2_max), dtype=float)
+        if q.shape != (stack.shape[0], len(taus)):
+            raise ValueError(f"predict_quantiles returned shape {q.shape} for {stack.shape[0]} observations x {len(taus)} quantiles")
+        out["q"] = q[-1].ravel()
         return out
 
     def bounds_inputs(self, y_obs, x2_max):
@@ -300,14 +386,31 @@ def run_case(ck, case, use_model=True):
     R = float(x.max() - x.min())
     xabs_all = float(np.max(np.abs(x))) or 1.0
     model_lines, model_expect = [], []
+    ck.count("databases")
+    if is_complex:
+        ck.count("databases with complex eigen-decomposition (imaginary parts != 0)")
+    # the constructor's eigenpair against an independent symmetric eigen-decomposition (diagnostic of the
+    # mechanism "eigenvector of the smallest eigenvalue"; any unit eigenpair gives a sound window)
+    lam_all, _ = np.linalg.eigh(s_o)
+    lam_min, lam_max = float(lam_all[0]), float(lam_all[-1])
+    cond = lam_max / lam_min
+    pc1 = np.asarray(b.pc1)
+    lam_code = 1.0 / complex(b.pc1_e)
+    resid = float(np.max(np.abs(s_o @ pc1 - lam_min * pc1)))
+    if abs(lam_code - lam_min) > (1e-6 + 1e-12 * cond) * lam_min or abs(float(np.linalg.norm(pc1)) - 1.0) > 1e-9 \
+            or resid > (1e-6 + 1e-12 * cond) * lam_max:
+        ck.disagree(f"constructor: (1/pc1_e, pc1) = ({lam_code!r}, |pc1|={float(np.linalg.norm(pc1))!r}) is not a unit eigenpair of the "
+                    f"smallest eigenvalue {lam_min!r} of s_o (residual {resid:.3g})", dict(case, queries=case["queries"][:1]))
+    Yall = [np.array(q_["y_obs"], dtype=float) for q_ in case["queries"]]
 
     for qi, q in enumerate(case["queries"]):
         y_obs = np.array(q["y_obs"], dtype=float)
         x2 = float(q["x2_max"])
         restricted = x2 >= 0.0
         c1 = sub(qi)
+        other = Yall[(qi + 1) % len(Yall)] if len(Yall) > 1 else None
         try:
-            ro = real.query(y_obs, x2, taus)
+            ro = real.query(y_obs, x2, taus, other)
         except Exception as e:
             ck.violation("raises", f"{q['kind']} x2_max={x2}: BMCI raised {exc_name(e)}: {e} (must be a number or NaN)", c1)
             continue
@@ -325,6 +428,18 @@ def run_case(ck, case, use_model=True):
         if is_complex:
             ck.count("complex-eig")
         wide = bool(iu - il == n)
+        # bounds handed to searchsorted by the real code (captured) vs the documented formula (diagnostic only:
+        # any window that is sound w.r.t. the property is accepted)
+        yp_doc, sl_doc, su_doc = real.bounds_inputs(y_obs, x2) if restricted else (0.0, 0.0, 0.0)
+        if restricted and ro["bounds"] is not None:
+            sl_real, su_real = ro["bounds"]
+            scale_b = max(abs(complex(sl_doc)), abs(complex(su_doc)), 1e-300)
+            if abs(complex(sl_real) - complex(sl_doc)) > 1e-12 * scale_b or abs(complex(su_real) - complex(su_doc)) > 1e-12 * scale_b:
+                ck.count("window bounds differ from y_proj -/+ (sqrt(2 x2_max/pc1_e) + tol) (diagnostic; accepted when sound)")
+        else:
+            sl_real, su_real = sl_doc, su_doc
+            if restricted:
+                ck.count("searchsorted calls not captured (bounds recomputed)")
         # ---- shape of the window
         if not (0 <= il <= iu <= n) or (not restricted and (il, iu) != (0, n)) or len(ro["ws"]) != iu - il:
             ck.violation("window-shape", f"weights() returned window ({il},{iu}) with {len(ro['ws'])} weights for n={n}", c1)
@@ -334,9 +449,12 @@ def run_case(ck, case, use_model=True):
             out_idx = np.where(~inwin)[0]
             slack = x2 - chi2s[out_idx].astype(float)
             bad = out_idx[(slack >= 0) & (slack >= 1e-9 * x2 + deltas[out_idx])]
+            n_grey = int(np.sum((chi2s[out_idx].astype(float) > x2) & (chi2s[out_idx].astype(float) <= 2 * x2)))
+            if n_grey:
+                ck.count("excluded entries with x2_max < chi2 <= 2 x2_max (allowed by the property, not expected from the documented radius)", n_grey)
             if len(bad):
                 k = int(bad[0])
-                yp, sl, su = real.bounds_inputs(y_obs, x2)
+                yp, sl, su = yp_doc, sl_real, su_real
                 near = abs(complex(proj_c[k]) - complex(yp)) <= 256 * EPS * max(1.0, float(np.max(np.abs(proj_c))))
                 inside = lexkey(sl) <= lexkey(proj_c[k]) <= lexkey(su)
                 sig = "window-spec" if inside else (SIG_ROUNDING if (x2 == 0.0 and float(chi2s[k]) == 0.0 and near) else "pruning-unsound")
@@ -363,10 +481,15 @@ def run_case(ck, case, use_model=True):
                 ck.count("ill-conditioned (formula comparison skipped)")
             # ---- the formula on the window, and on the whole database when unrestricted
             st = Oracle.stats(w_os, xsorted, np.where(inwin)[0])
+            if not ro["sigma"] >= 0.0:
+                ck.violation("formula", f"x2_max={x2}: predict returned a negative standard deviation {ro['sigma']!r}", c1)
+            # rounding floor of the two-pass variance: the mean carries an error of <= ~n eps |x|, which enters sigma
+            # in quadrature; everything else is relative to the SPREAD, not to |x|
+            dm = 8 * max(iu - il, 1) * EPS * xabs
             if wellcond and st:
                 tol_m = 4 * eps_w * Rw + 1e-9 * xabs
-                tol_v = 8 * eps_w * Rw * Rw + 1e-9 * xabs * xabs
-                if abs(ro["mean"] - st[0]) > tol_m or abs(ro["sigma"] ** 2 - st[1]) > tol_v:
+                tol_v = 8 * eps_w * Rw * Rw + 1e-6 * st[1] + dm * dm
+                if abs(ro["mean"] - st[0]) > tol_m or abs(ro["sigma"] ** 2 - st[1]) > tol_v or ro["sigma"] < 0:
                     ck.violation("formula", f"x2_max={x2}: predict=({ro['mean']!r},{ro['sigma']!r}) but sum(w x)/sum(w)={st[0]!r}, "
                                             f"sqrt(sum(w (x-mean)^2)/sum(w))={math.sqrt(st[1])!r} over the {'whole database' if wide else 'window'}", c1)
                 # ---- pruned estimate vs the unpruned formula over the WHOLE database
@@ -375,8 +498,9 @@ def run_case(ck, case, use_model=True):
                     share = float(w_os[~inwin].sum() / w_os.sum())
                     eps_all = float(np.max(deltas[relevant])) / 2
                     if eps_all < 1e-4:
+                        dma = 8 * n * EPS * xabs_all
                         if abs(ro["mean"] - full[0]) > share * R + 4 * eps_all * R + 1e-9 * xabs_all or \
-                                abs(ro["sigma"] ** 2 - full[1]) > 2 * share * R * R + 8 * eps_all * R * R + 1e-9 * xabs_all ** 2:
+                                abs(ro["sigma"] ** 2 - full[1]) > 2 * share * R * R + 8 * eps_all * R * R + 1e-6 * full[1] + dma * dma:
                             ck.violation("pruned-estimate", f"x2_max={x2}: pruned predict=({ro['mean']!r},{ro['sigma']!r}) differs from the unpruned "
                                                             f"({full[0]!r},{math.sqrt(full[1])!r}) by more than the excluded weight share {share:.3g} x range {R:.3g}", c1)
             # ---- cdf
@@ -399,9 +523,16 @@ def run_case(ck, case, use_model=True):
             slackq = 1e-12 * xabs
             if np.any(np.diff(qv) < -slackq) or qv.min() < xw.min() - slackq or qv.max() > xw.max() + slackq:
                 ck.violation("quantiles", f"x2_max={x2}: quantiles {qv.tolist()} for taus {taus} not non-decreasing within [{xw.min()!r},{xw.max()!r}]", c1)
+            elif wellcond:
+                qlo, qhi = oracle_quantiles(xw, w_os[inwin], taus, 1e-10 + 4 * eps_w)
+                for t, lo_, hi_, got in zip(taus, qlo, qhi, qv.tolist()):
+                    if not (lo_ - 1e-9 * xabs - 1e-9 * Rw <= got <= hi_ + 1e-9 * xabs + 1e-9 * Rw):
+                        ck.violation("quantile-value", f"x2_max={x2}: quantile tau={t}: {got!r}, but the inverse of the weighted ecdf "
+                                                       f"(np.interp on the cumulative weights over the x-sorted window) lies in [{lo_!r},{hi_!r}]", c1)
+                        break
             # ---- permutation invariance: the real code on the permuted database
             try:
-                rp = real_p.query(y_obs, x2, taus)
+                rp = real_p.query(y_obs, x2, taus, other)
             except Exception as e:
                 ck.violation("raises", f"permuted database, x2_max={x2}: BMCI raised {exc_name(e)}: {e}", c1)
                 rp = None
@@ -416,7 +547,7 @@ def run_case(ck, case, use_model=True):
                     extra_m, extra_v = shr * R, 2 * shr * R * R
                     ck.count("perm: window differs on the rim")
                 bad = (math.isnan(rp["mean"]) or abs(rp["mean"] - ro["mean"]) > extra_m + 4 * eps_w * Rw + 1e-9 * xabs
-                       or abs(rp["sigma"] ** 2 - ro["sigma"] ** 2) > extra_v + 8 * eps_w * Rw * Rw + 1e-9 * xabs * xabs)
+                       or abs(rp["sigma"] ** 2 - ro["sigma"] ** 2) > extra_v + 8 * eps_w * Rw * Rw + 1e-6 * ro["sigma"] ** 2 + 2 * dm * dm)
                 what = "predict"
                 if not bad and set_o == set_p:
                     if rp["cdf_nan"]:
@@ -434,11 +565,8 @@ def run_case(ck, case, use_model=True):
             wfull = ro["ws"] if (il, iu) == (0, n) else np.asarray(b.weights(y_obs, -1.0)[2], dtype=float).ravel()
             wmix = wfull.copy()
             wmix[il:iu] = ro["ws"]
-            if restricted:
-                yp, sl, su = real.bounds_inputs(y_obs, x2)
-            else:
-                yp = sl = su = 0.0
-            if is_complex:      # lexicographic order of complex numbers -> order-preserving integers
+            sl, su = (sl_real, su_real) if restricted else (0.0, 0.0)
+            if is_complex or np.imag(sl) != 0 or np.imag(su) != 0:      # lexicographic order of complex numbers -> order-preserving integers
                 keys = sorted({lexkey(v) for v in proj_c} | {lexkey(sl), lexkey(su)})
                 rk = {k: i for i, k in enumerate(keys)}
                 pj = [Fraction(rk[lexkey(v)]) for v in proj_c]
@@ -528,7 +656,9 @@ def compare_model(ck, c1, o, ro, c_float, xw, taus):
         if (est is None) != math.isnan(ro["mean"]) or (est is None) != math.isnan(ro["sigma"]):
             ck.disagree(f"{tag}: predict NaN-ness model[{name}] {o[pi][:40]} vs code {ro['mean']},{ro['sigma']}", c1)
         elif est is not None and numeric:
-            if abs(float(est[0]) - ro["mean"]) > 1e-9 * xabs or abs(float(est[1]) - ro["sigma"] ** 2) > 1e-9 * xabs * xabs:
+            dm = 8 * max(len(xw), 1) * EPS * xabs       # rounding floor of the mean, enters sigma in quadrature
+            if abs(float(est[0]) - ro["mean"]) > 1e-9 * xabs or abs(float(est[1]) - ro["sigma"] ** 2) > 1e-9 * float(est[1]) + dm * dm \
+                    or ro["sigma"] < 0:
                 ck.disagree(f"{tag}: predict model[{name}] ({float(est[0])!r},{math.sqrt(float(est[1]))!r}) vs code ({ro['mean']!r},{ro['sigma']!r})", c1)
         kind, xs, cum = parse_cdf(o[ci])
         if kind == "index-error":
@@ -631,7 +761,8 @@ def main():
     try:
         for name, c in vlib.load_corpus(PROP):
             run_case(ck, c, use_model)
-        explore(ck, ck.budget(160, 800), use_model)
+        # after an anchor change vlib multiplies the budget by 10: cap quick so that it stays below 90 s
+        explore(ck, min(ck.budget(160, 800), 700) if ck.tier == "quick" else ck.budget(160, 800), use_model)
         if ck.broken() and not ck.violations:
             explore(ck, 1500, use_model=False, tier="quick")
         if ck.violations:
@@ -644,6 +775,12 @@ def main():
                 ck.violations.append(shrink(_quiet_check, v))
     finally:
         np.seterr(**old)
+    ndb = ck.dist.get("databases", 0)
+    ncx = ck.dist.get("databases with complex eigen-decomposition (imaginary parts != 0)", 0)
+    ck.extra_cov["complex_eig"] = {"databases": ndb, "databases_with_nonzero_imaginary_parts": ncx,
+                                   "queries_on_such_databases": ck.dist.get("complex-eig", 0)}
+    ck.notes.append(f"numpy's eig returns complex arrays; {ncx} of {ndb} databases had non-zero imaginary parts in pc1/pc1_e/pc1_proj "
+                    "(repeated smallest eigenvalue); all oracle checks are applied to them unchanged, the model gets order-preserving ranks")
     ck.finish()
 
 
